@@ -802,10 +802,36 @@ def oracle_diff(scn, S, d):
         fail(v.signature, v.reason)
         return
     if rc != exp_status:
-        fail("C20:diff-status", f"{what}: exit status {rc}, expected {exp_status} (operand states {[f1['state'], f2['state']]}); stdout {out[:200]!r} stderr {err[:300]!r}")
+        sig = "C20:diff-status"
+        if rc == 1 and exp_status == 2 and early_verdict_on_decodable_prefix(prog, dopts, f1, f2, A, B, env, ref_tool):
+            # recorded finding: diff/cmp found a difference and stopped reading while the decompressor was still blocked on the pipe,
+            # far before the damaged part; it dies of SIGPIPE, which xzdiff deliberately tolerates, so the damage is never noticed
+            sig = "C20:diff-verdict-1-when-damage-lies-beyond-where-diff-stops-reading"
+        fail(sig, f"{what}: exit status {rc}, expected {exp_status} (operand states {[f1['state'], f2['state']]}); stdout {out[:200]!r} stderr {err[:300]!r}")
         return
     if exp_out is not None and normalise_diff(prog, out) != normalise_diff(prog, exp_out):
         fail("C20:diff-output", f"{what}: stdout {out[:500]!r}, {ref_tool} on the decompressed files prints {exp_out[:500]!r}")
+
+
+PIPE_CAPACITY = 65536
+
+
+def early_verdict_on_decodable_prefix(prog, dopts, f1, f2, A, B, env, ref_tool):
+    """True iff every bad operand is a truncated file whose decodable prefix exceeds the pipe capacity (the decompressor is
+    certainly still blocked on the pipe when diff/cmp has seen the first buffers) and the reference tool, given those decodable
+    prefixes, reports "differ" (1).  Nothing else is attributed to the recorded finding."""
+    dec = {"xz": ["xz", "-dcq"], "lzma": ["xz", "-dcq"], "lz": ["xz", "-dcq"], "txz": ["xz", "-dcq"], "tlz": ["xz", "-dcq"], "gz": ["gzip", "-dcq"], "bz2": ["bzip2", "-dcq"]}
+    for f in (f1, f2):
+        if f["state"] == "ok":
+            continue
+        if f["state"] != "trunc" or f["fmt"] not in dec:
+            return False
+        rc, pre, _ = base.run_cmd([b(x) for x in dec[f["fmt"]] + ["--", f["name"]]], stdin=b"", env=env, cwd=A)
+        if rc is None or pre is None or len(pre) <= PIPE_CAPACITY:
+            return False
+        write_file(B, f["name"], pre)
+    rc, _, _ = base.run_cmd([b(x) for x in [ref_tool] + dopts + ["--", f1["name"], f2["name"]]], stdin=b"", env=base.clean_env(), cwd=B)
+    return rc == 1
 
 
 def oracle(scn, S):
